@@ -590,6 +590,30 @@ def handwritten_equality_is_complete(F, res, eqs, rule="H7"):
                not unread and not narrow, where=f.loc(),
                how="fields never read: %s; fields compared only through a narrowing view: %s" % (unread, {x: sorted(FL.short(c) for c in views[x]) for x in narrow})
                if unread or narrow else "%d fields, all read and none only through keys()/len()/.." % len(fields))
+        # a pairing that stops at the shorter side: `a.iter().zip(b.iter()).all(|(x, y)| x == y)` calls a prefix of the other equal -
+        # a declaration appended to a module changes nothing for salsa. Iterator::eq, slice and container `==` compare the lengths.
+        trunc = []
+        for q in F.with_helpers(p, depth=2, stop=[e for e in eqs if e != p]):
+            g = F.fns.get(q)
+            if g is None or not g.blocks:
+                continue
+            zips = [t for _b, t in g.calls() if (callee_def(t) or callee(t) or "").endswith(("Iterator::zip", "iter::zip", "::zip_eq")) and
+                    not (callee_def(t) or callee(t) or "").endswith("::zip_eq")]
+            if not zips:
+                continue
+            dg = FL.Defs(g)
+            len_cmp = False
+            for _b, _i, st_ in g.stmts():
+                rv = st_.get("rv") or {}
+                if rv.get("k") == "bin" and rv["op"] in ("Eq", "Ne"):
+                    os_ = [dg.origin_op(rv[side]) for side in ("a", "b")]
+                    if all(o.get("k") == "call" and (callee(o["t"]) or callee_def(o["t"]) or "").rsplit("::", 1)[-1] in ("len", "count") for o in os_):
+                        len_cmp = True
+            if not len_cmp:
+                trunc.append("%s line %s" % (FL.short(q), zips[0].get("ln")))
+        res.ob(rule, "eq-no-truncating-pairing/%s" % T.replace("ide::", ""), "the hand-written equality of %s does not compare two sequences through a pairing "
+               "that stops at the shorter one (`zip`) without comparing their lengths" % T.rsplit("::", 1)[-1], not trunc, where=f.loc(),
+               how="zip without a length comparison in %s" % trunc if trunc else "no zip in the equality and its helpers, or the lengths are compared beside it")
     res.floor("hand-written PartialEq impls among the query value types", n, 1)
 
 
